@@ -1732,3 +1732,73 @@ def r137(ctx: Ctx) -> RuleReport:
     if not found:
         rep.undecided(key, root.loc(), 'no assignment to the two relation names is guarded by a test of the pushed variable')
     return rep
+
+
+# ---------------------------------------------------------------------------------------------
+@rule('R144', 'the marker list built for a dereified triple receives at most one role alignment (a role is written with one "~" suffix)')
+def r144(ctx: Ctx) -> RuleReport:
+    """A triple of a decoded graph carries at most one RoleAlignment, so copying the role alignments of ONE triple adds at most one; an explicit
+    RoleAlignment(...) adds one.  The sum along any path through the loop body must stay below two."""
+    from ..resolve import local_callees
+    rep = RuleReport('R144', r144.title, floor=1)
+    root = ctx.repo.func('penman.transform', '_dereify_agenda')
+    for fi in [f for f in local_callees(ctx, root, depth=1) if f.module.name == root.module.name]:
+        cfg = CFG(fi.node)
+        pm = ctx.repo.parent_map(fi.node)
+        weight: Dict[int, Tuple[int, ast.AST]] = {}
+        for n in walk_local(fi.node):
+            if not (isinstance(n, ast.Call) and isinstance(n.func, ast.Attribute) and n.func.attr in ('append', 'extend') and n.args):
+                continue
+            a = n.args[0]
+            w = 0
+            if n.func.attr == 'append' and isinstance(a, ast.Call) and norm(a.func) == 'RoleAlignment':
+                w = 1
+            elif n.func.attr == 'extend' and isinstance(a, (ast.GeneratorExp, ast.ListComp)):
+                keeps_ra = any(norm(c).replace(' ', '') .startswith('isinstance(') and norm(c).endswith('RoleAlignment)') for g in a.generators for c in g.ifs)
+                if keeps_ra:
+                    # how many triples' marker lists are walked?
+                    w = 1
+                    for g in a.generators:
+                        if isinstance(g.iter, (ast.Tuple, ast.List)):
+                            w = max(w, len(g.iter.elts))
+                        if isinstance(g.iter, ast.BinOp) and isinstance(g.iter.op, ast.Add):
+                            w = max(w, 2)
+                        if isinstance(g.iter, ast.Call) and norm(g.iter.func).split('.')[-1] in ('chain',):
+                            w = max(w, len(g.iter.args))
+            if w:
+                st = n
+                while not isinstance(st, ast.stmt):
+                    st = pm[id(st)]
+                weight[cfg.node_of(st)] = (w, n)
+        if not weight:
+            continue
+        # the heaviest path through one round of the enclosing loop (or through the function)
+        loops = [x for x in walk_local(fi.node) if isinstance(x, ast.For) and any(cfg.node_of(pm_st) in weight for pm_st in ast.walk(x) if isinstance(pm_st, ast.stmt) and id(pm_st) in cfg.stmt_node)]
+        start = cfg.node_of(loops[0]) if loops else cfg.entry
+        best: Dict[int, int] = {}
+        stack = [(start, 0, frozenset())]
+        top, top_path = 0, None
+        steps = 0
+        while stack and steps < 20000:
+            steps += 1
+            nid, tot, seen = stack.pop()
+            if nid in seen:
+                continue
+            tot2 = tot + (weight[nid][0] if nid in weight else 0)
+            if best.get(nid, -1) >= tot2 and nid in best:
+                continue
+            best[nid] = tot2
+            if tot2 > top:
+                top, top_path = tot2, seen | {nid}
+            for m, lab in cfg.succ[nid]:
+                if lab == 'exc' or (loops and m == start):
+                    continue
+                stack.append((m, tot2, seen | {nid}))
+        key = f'{fi.fq}: at most one role alignment reaches the marker list of the dereified triple'
+        if top >= 2:
+            culprit = next(n for nid, (w, n) in weight.items() if nid in (top_path or ()) and w >= 2) if any(w >= 2 for w, _ in weight.values()) else list(weight.values())[-1][1]
+            rep.violation(key, fi.loc(culprit), f'`{norm(culprit)[:70]}` (with the other additions on the same path) can put {top} role alignments into the list: the edge is then written '
+                          f'":mod~e.1~e.3", which the lexer does not read back as one role - the encoded graph no longer decodes')
+        else:
+            rep.ok(key, fi.loc(list(weight.values())[0][1]), f'heaviest path adds {top}')
+    return rep
